@@ -368,6 +368,9 @@ fn oversize_cases(check: &Check, tiny: bool) {
                                 if !(n_ok == prev && last_err && items.len() == prev + 1) {
                                     let sig = if !last_err { "oversize-length-not-rejected-before-payload" } else { "oversize-wrong-outcome" };
                                     check.violation(sig, format!("declared {d} > 1 MiB with only the header fed: {} ok frame(s), error: {last_err}", n_ok), w.clone());
+                                    // a decoder that accepts this would try to reserve the larger declared sizes
+                                    // (allocation failure aborts the process): stop probing
+                                    return;
                                 } else if cap > 4 * MIB {
                                     check.violation("oversize-length-grew-buffer", format!("buffer capacity {cap} after rejected header"), w.clone());
                                 }
